@@ -218,6 +218,9 @@ func rangeGuardOnPaths(c *Ctx, lt *types.Named, fn *ssa.Function, idxParams []*s
 	}
 	S := st.String()
 	okA, okB = true, true
+	// Insert and Set document position == size as valid (append): a path that knows 0 <= i <= size may write, and may use
+	// the index as a slice bound (slicing at the length is legal) — not as an element position
+	appendOK := fnName(fn) == "Insert" || fnName(fn) == "Set"
 	for _, g0 := range gc.GCs {
 		guards := append(append([]*Term(nil), g0.Guards...), entryKnowledge(gc, g0.From, 0)...)
 		allIn := true
@@ -252,15 +255,21 @@ func rangeGuardOnPaths(c *Ctx, lt *types.Named, fn *ssa.Function, idxParams []*s
 				upper = true
 			}
 			in := lower && upper
+			inclusive := appendOK && lower && (upper || le)
 			if !in {
-				allIn = false
+				if !inclusive {
+					allIn = false
+				}
 				// R5a: the index must not be used as a position on this path
 				used := false
 				chk := func(t *Term) bool {
-					if (t.Op == "ia" || t.Op == "index") && len(t.Args) == 2 && t.Args[1].any(func(x *Term) bool { return x.String() == P }) {
+					if (t.Op == "ia" || t.Op == "index") && len(t.Args) == 2 && t.Args[1].String() == P {
 						used = true
 					}
-					if t.Op == "slice" {
+					if (t.Op == "ia" || t.Op == "index") && len(t.Args) == 2 && !inclusive && t.Args[1].any(func(x *Term) bool { return x.String() == P }) {
+						used = true
+					}
+					if t.Op == "slice" && !inclusive {
 						for _, b := range t.Args[1:] {
 							if b.any(func(x *Term) bool { return x.String() == P }) {
 								used = true
